@@ -82,8 +82,12 @@ CHECKS: dict[str, dict[str, str]] = {
                  "is first held to Core's script_tests.json (996 signature-free vectors: identical verdicts); TLC then builds every program over "
                  "five chunk families up to a length with machine invariants checked in each state, and each program is run through "
                  "engine.script.verify_script (verdict and final stack compared); random spends (bare, P2SH, P2WSH, P2SH-P2WSH, unknown witness "
-                 "versions, mutated scriptSigs/witnesses) under random consistent flag subsets are validated by TLC. Spends that execute a "
-                 "signature opcode or taproot are not decided by this instantiation."),
+                 "versions, mutated scriptSigs/witnesses) under random consistent flag subsets are validated by TLC. The signature opcodes are decided "
+                 "by module ScriptSigs (EvalChecksig, CHECKMULTISIG, P2WPKH, taproot key/script paths over the specification's sighashes, ECDSA and "
+                 "BIP340): it is held to ALL 1228 vectors of script_tests.json on Core's own crediting/spending transactions (1205 identical verdicts, 23 "
+                 "lax-DER vectors outside it), the library is run on the same transactions, and CHECKSIG / CHECKMULTISIG spends with real signatures "
+                 "in every state (valid, empty, wrong key, wrong order, high s, padded r, hash type 0, hybrid/uncompressed keys; bare, P2SH, P2WSH, "
+                 "P2SH-P2WSH; with and without OP_NOT) under random flag subsets are judged by it."),
         "technique": "TLA+ transcription of Core's script interpreter validated on Core's vectors; TLC-generated programs replayed into the engine; spends validated as traces",
         "design_ref": "DESIGN.md section 4 C08",
     },
